@@ -420,8 +420,38 @@ class Tensor:
             shape = tuple(shape[0])
         nd = len(shape)
         cur = (1,) * (nd - self.a.ndim) + self.a.shape
-        tgt = tuple(c if s == -1 else s for s, c in zip(shape, cur))
-        return self._new(np.broadcast_to(self.a.reshape(cur), tgt))
+        tgt = tuple(c if s == -1 else _pyint(s) for s, c in zip(shape, cur))
+        if tgt == cur:
+            # nothing is actually broadcast: torch returns a (writable, contiguous) view of the same storage
+            return self._new(self.a.reshape(cur))
+        return self._new(np.broadcast_to(self.a.reshape(cur), tgt))  # read-only, like torch's refusal of in-place writes
+
+    def expand_as(self, o):
+        return self.expand(*o.shape)
+
+    def log1p(self):
+        return (self + 1).log()
+
+    def log1p_(self):
+        return self._inplace(self.log1p())
+
+    def remainder(self, o):
+        return remainder(self, o)
+
+    def addcmul_(self, t1, t2, value=1):
+        return self._inplace(self + (t1 * t2) * value)
+
+    def addcmul(self, t1, t2, value=1):
+        return self + (t1 * t2) * value
+
+    def addcdiv_(self, t1, t2, value=1):
+        return self._inplace(self + (t1 / t2) * value)
+
+    def chunk(self, chunks, dim=0):
+        return chunk(self, chunks, dim)
+
+    def unique(self, **kw):
+        return unique(self, **kw)
 
     def __getitem__(self, idx):
         return self._new(self.a[_idx(idx)])
@@ -1217,6 +1247,88 @@ def var_mean(x, dim=None, unbiased=True, correction=None):
 
 
 UndefinedValue = S.UndefinedValue  # torch would produce inf / NaN here (the real-arithmetic model has no value)
+
+
+def log1p(x):
+    return x.log1p()
+
+
+def _rem(a, b):
+    if isinstance(a, Fraction) and isinstance(b, Fraction):
+        return a - b * (a / b).__floor__()  # Python / torch.remainder convention: the sign of the divisor
+    return S.fn("remainder", a, b)
+
+
+def remainder(x, y):
+    x = x if isinstance(x, Tensor) else tensor(x)
+    return x._bin(y, lambda p, q: _map2(_rem, p, q), force_float=True)
+
+
+def fmod(x, y):
+    raise UnsupportedOp("torch.fmod is not modelled by symtorch")
+
+
+def addcmul(x, t1, t2, value=1, out=None):
+    return _write_out(x.addcmul(t1, t2, value=value), out)
+
+
+def chunk(x, chunks, dim=0):
+    n = x.a.shape[dim]
+    size = -(-n // _pyint(chunks)) if n else 0
+    out = []
+    k = 0
+    while k < n:
+        idx = [slice(None)] * x.a.ndim
+        idx[dim] = slice(k, k + size)
+        out.append(x._new(x.a[tuple(idx)]))
+        k += size
+    return tuple(out) if out else (x._new(x.a),)
+
+
+def split(x, size, dim=0):
+    if not isinstance(size, _pyint):
+        raise UnsupportedOp("torch.split with a list of sizes is not modelled by symtorch")
+    n = x.a.shape[dim]
+    out = []
+    for k in range(0, n, size):
+        idx = [slice(None)] * x.a.ndim
+        idx[dim] = slice(k, k + size)
+        out.append(x._new(x.a[tuple(idx)]))
+    return tuple(out)
+
+
+def unique(x, sorted=True, return_inverse=False, return_counts=False, dim=None):
+    """concrete tensors only (rows of 0/1 outcomes, index vectors): values are compared exactly"""
+    flat = x.a.reshape(-1)
+    if _b.any(isinstance(v, (S.Sym, S.SymC)) for v in flat):
+        raise UnsupportedOp("torch.unique of a tensor with symbolic entries")
+    if dim is None:
+        keys = [(v,) for v in flat]
+        shape_tail = ()
+    else:
+        moved = np.moveaxis(x.a, dim, 0)
+        keys = [tuple(r.reshape(-1)) for r in moved]
+        shape_tail = moved.shape[1:]
+    uniq = _b.sorted(set(keys))
+    pos = {k: i for i, k in enumerate(uniq)}
+    inv = np.array([pos[k] for k in keys], dtype=np.int64)
+    cnt = np.bincount(inv, minlength=len(uniq)).astype(np.int64) if len(keys) else np.zeros((0,), dtype=np.int64)
+    if dim is None:
+        ua = np.empty((len(uniq),), dtype=x.a.dtype)
+        for i, k in enumerate(uniq):
+            ua[i] = k[0]
+        inv = inv.reshape(x.a.shape)
+    else:
+        ua = np.empty((len(uniq),) + shape_tail, dtype=x.a.dtype)
+        for i, k in enumerate(uniq):
+            ua[i] = np.array(k, dtype=x.a.dtype).reshape(shape_tail)
+        ua = np.moveaxis(ua, 0, dim)
+    res = [x._new(ua)]
+    if return_inverse:
+        res.append(Tensor(_raw=inv, dtype=int64))
+    if return_counts:
+        res.append(Tensor(_raw=cnt, dtype=int64))
+    return res[0] if len(res) == 1 else tuple(res)
 
 
 def transpose(x, i, j):
